@@ -15,6 +15,7 @@ Proof.
   intros s c s' l I H w'. pose proof (i_act_excl s I w') as AX.
   destruct c as [e|w e|]; simpl in H.
   - pose proof (i_reqs_wk s I w') as RW. pose proof (i_lock_io s I) as LI. pose proof (i_lock_wk s I w') as LW.
+    pose proof (i_appx s I) as AX0.
     pose proof (active_prepop_or_holds (wk s w')) as AP.
     destruct (i_mret s I) as [MR|MR]; io_cases H; close2.
   - pose proof (i_q_excl s I) as QX. pose proof (i_act_excl s I w) as AXw.
@@ -28,7 +29,7 @@ Lemma pres_tok_sd : forall s c s' l, Inv s -> step s c = Some (s', l) -> tokio s
 Proof.
   intros s c s' l I H. pose proof (i_tok_sd s I) as TS.
   destruct c as [e|w e|]; simpl in H.
-  - pose proof (i_reqs_sd s I) as RS.
+  - pose proof (i_reqs_sd s I) as RS. pose proof (i_appx s I) as AX0.
     destruct (i_mret s I) as [MR|MR]; io_cases H; prep; try exact TS; try solve [heavy];
     destruct (sd s) eqn:SD; heavy.
   - pose proof (i_lock_io s I) as LI. pose proof (i_lock_wk s I w) as LW.
